@@ -82,7 +82,7 @@ func scenC20(r *Run) {
 	}
 	r.Param("mode", mode)
 	RegisterKind("mock")
-	sim := r.StartSim(verifsim.Config{IdleCap: 1000 * time.Hour, StepCap: 400000}, "rpc/plugins/circuitbreaker")
+	sim := r.StartSim(verifsim.Config{IdleCap: 1000 * time.Hour, StepCap: 400000, GapChoices: smallGaps, PCTSteps: 300}, "rpc/plugins/circuitbreaker")
 	thresholds := []int{0, 1, 2, 5}
 	// recovery time: ordinary, "effectively zero" and "effectively infinite"
 	recovers := []time.Duration{c20Recover, time.Nanosecond, time.Duration(math.MaxInt64)}
